@@ -637,10 +637,26 @@ mod detail {
         ops: &[FlatOp<T>],
         nodes: &[FlatNode<T>],
     ) -> ExprIdxVec {
+        // A commutative operator between two numbers may jump the queue of its priority level to
+        // enable compilation. This is only invisible if the operator does not carry a unary operator,
+        // i.e., does not have to be the last of its group, and if the closest operator to the left
+        // that is not executed earlier anyway is either of lower priority or the same operator.
+        let can_jump_queue = |bin_op_idx: usize| {
+            let op = &ops[bin_op_idx];
+            op.unary_op.len() == 0
+                && ops[..bin_op_idx]
+                    .iter()
+                    .rev()
+                    .find(|left| left.bin_op.op.prio <= op.bin_op.op.prio)
+                    .map(|left| {
+                        left.bin_op.op.prio < op.bin_op.op.prio || left.bin_op.idx == op.bin_op.idx
+                    })
+                    .unwrap_or(true)
+        };
         let prio_increase =
             |bin_op_idx: usize| match (&nodes[bin_op_idx].kind, &nodes[bin_op_idx + 1].kind) {
                 (FlatNodeKind::Num(_), FlatNodeKind::Num(_))
-                    if ops[bin_op_idx].bin_op.op.is_commutative =>
+                    if ops[bin_op_idx].bin_op.op.is_commutative && can_jump_queue(bin_op_idx) =>
                 {
                     let prio_inc = 5;
                     &ops[bin_op_idx].bin_op.op.prio * 10 + prio_inc
